@@ -60,6 +60,9 @@ pub fn run(out: &mut Out, tier: &str, rng: &mut Rng) {
             evs.push(Ev::Bytes(sess::frame(0x20, &[0x00])));
             evs.push(Ev::Signal(rand_signal(rng)));
             sess::run_case(out, &inst, "sess", &evs, flags & 1 == 1);
+            if flags % 4 == 1 {
+                sess::run_case_window(out, &inst, "sess", &evs, true, [1usize, 7, 13][(flags as usize / 4) % 3]);
+            }
             out.count(if flags & 1 == 1 { "upgrade streaming" } else { "upgrade not streaming" });
         }
     }
@@ -93,6 +96,9 @@ pub fn run(out: &mut Out, tier: &str, rng: &mut Rng) {
             }
         }
         sess::run_case(out, &inst, "sess", &evs, streaming);
+        if streaming {
+            sess::run_case_window(out, &inst, "sess", &evs, true, 1 + (evs.len() % 11));
+        }
         out.count("interleaving");
     }
     // --- bursts while the session is held inside a payload read
